@@ -95,7 +95,7 @@ static std::shared_ptr<BicubicSurface> makeSurface(int which, double s) {
     return std::make_shared<BicubicSurface>(x, y, f, 0);
 }
 
-static Shape makeShape(int idx, long seed) {
+static Shape buildShape(int idx, long seed) {
     Shape S; S.name = kShapeNames[idx];
     const double s = sizeFactor(seed);
     auto sampleFromParam = [&](const std::function<Vec3(double, double)>& P, int nu, int nv, double u0, double u1, double v0, double v1, bool closedV) {
@@ -182,9 +182,10 @@ static Shape makeShape(int idx, long seed) {
         S.surf = makeSurface(which, s);
         S.kind = "HeightMap"; S.g.reset(new ContactGeometry::SmoothHeightMap(*S.surf)); S.scale = s; S.ext = Vec3(0.95 * s, 0.85 * s, 0.5 * s);
         S.hasRef = false;
-        const ContactGeometry* g = S.g.get();
-        S.fRef = [g](const Vec3& p) { return g->calcSurfaceValue(p); };           // semi-independent: value function of the library
-        S.gradRef = [g](const Vec3& p) { return g->calcSurfaceGradient(p); };
+        // semi-independent reference: the library's value function on a private object that is never handed to the code under test
+        std::shared_ptr<ContactGeometry> priv(new ContactGeometry::SmoothHeightMap(*S.surf));
+        S.fRef = [priv](const Vec3& p) { return priv->calcSurfaceValue(p); };
+        S.gradRef = [priv](const Vec3& p) { return priv->calcSurfaceGradient(p); };
         for (int i = 0; i <= 60; ++i) for (int j = 0; j <= 60; ++j) {
             Vec3 p(s * (-1 + 2.0 * i / 60), s * (-0.9 + 1.8 * j / 60), 0);
             if (i == 60) p[0] = s * (-1 + 0.4 * 5); if (j == 60) p[1] = s * (-0.9 + 0.45 * 4);
@@ -205,7 +206,7 @@ static Shape makeShape(int idx, long seed) {
         double rmax = 0; Vec3 ext(0);
         for (auto& v : S.mesh.v) { rmax = std::max(rmax, v.norm()); for (int i = 0; i < 3; ++i) ext[i] = std::max(ext[i], std::abs(v[i])); }
         S.scale = rmax; S.ext = ext; S.hasRef = true; S.exactSD = false;
-        const gk::RefMesh* M = &S.mesh;
+        auto M = std::make_shared<gk::RefMesh>(S.mesh);
         S.distRef = [M](const Vec3& q) {
             double best = INFINITY; Vec3 cp;
             for (auto& f : M->f) best = std::min(best, gk::closestPtTriangle(q, M->v[f[0]], M->v[f[1]], M->v[f[2]], cp));
@@ -223,10 +224,39 @@ static Shape makeShape(int idx, long seed) {
     return S;
 }
 
+// The reference side of a shape (samples, closures, lattices) is immutable and cached per process; the library
+// object is rebuilt for every item so that an item never sees state left by an earlier one (replays run the
+// item alone).  Mesh objects are kept: they are immutable after construction and cost milliseconds to build.
+static void freshGeometry(Shape& S) {
+    if (S.kind == "HalfSpace") S.g.reset(new ContactGeometry::HalfSpace());
+    else if (S.kind == "Sphere") S.g.reset(new ContactGeometry::Sphere(S.r));
+    else if (S.kind == "Ellipsoid") S.g.reset(new ContactGeometry::Ellipsoid(S.radii));
+    else if (S.kind == "Cylinder") S.g.reset(new ContactGeometry::Cylinder(S.r));
+    else if (S.kind == "Torus") S.g.reset(new ContactGeometry::Torus(S.R, S.r));
+    else if (S.kind == "Brick") S.g.reset(new ContactGeometry::Brick(S.ext));
+    else if (S.kind == "HeightMap") S.g.reset(new ContactGeometry::SmoothHeightMap(*S.surf));
+}
+static Shape& makeShape(int idx, long seed) {
+    static std::map<long, Shape> cache;
+    const long key = idx + 1000 * seed;
+    auto it = cache.find(key);
+    if (it == cache.end()) it = cache.emplace(key, buildShape(idx, seed)).first;
+    else freshGeometry(it->second);
+    return it->second;
+}
+
 // Query lattices.  A: symmetric lattice through the origin (rich in degenerate, symmetry-plane queries);
 // B: the same lattice shifted by a generic offset (no zero coordinates).  Both are scaled by the shape's
 // half extents times a generic factor, so that points fall inside, near and outside the surface.
-static std::vector<Vec3> queryLattice(const Shape& S, bool thorough, long seed) {
+static std::vector<Vec3> buildLattice(const Shape& S, bool thorough, long seed);
+static const std::vector<Vec3>& queryLattice(const Shape& S, bool thorough, long seed) {
+    static std::map<std::string, std::vector<Vec3>> cache;
+    const std::string key = S.name + "#" + std::to_string(seed);
+    auto it = cache.find(key);
+    if (it == cache.end()) it = cache.emplace(key, buildLattice(S, thorough, seed)).first;
+    return it->second;
+}
+static std::vector<Vec3> buildLattice(const Shape& S, bool thorough, long seed) {
     std::vector<Vec3> q;
     const int nA = thorough ? 4 : 3, nB = thorough ? 3 : 2;
     const double gA[3] = {0.49, 0.53, 0.445}, gB[3] = {0.61, 0.57, 0.66};
@@ -270,7 +300,10 @@ int main(int argc, char** argv) {
     verif::Run run("C34", argc, argv);
     run.setDeadline(300, 2400);
     const bool thorough = run.thorough();
-    const long seed = run.seed;
+    // value sets for the continuous parameters (3 size factors x 3 lattice scales): quick = the one selected by VERIF_SEED, thorough = all 9
+    std::vector<long> vseeds; if (thorough) for (long v = 0; v < 9; ++v) vseeds.push_back(v); else vseeds.push_back(((run.seed % 9) + 9) % 9);
+    const int NVS = (int)vseeds.size();
+    long seed = vseeds[0];
     run.rule = "E3: catalogue of 19 shapes (HalfSpace, Sphere, 5 Ellipsoids incl. two-equal/all-equal/thin, Cylinder, 2 Tori, 2 Bricks, 3 SmoothHeightMaps, "
                "4 TriangleMeshes) x complete query lattices (symmetric 7^3 [9^3 thorough] lattice through the origin + generically shifted 5^3 [7^3] lattice + "
                "degenerate points: centre, axes, on-surface, focal/medial points) x 29 directions (26 lattice + 3 generic) x ray origins; a case = "
@@ -281,15 +314,17 @@ int main(int argc, char** argv) {
                        "SmoothHeightMap curvature and gradient oracles use the library's own value function (self-consistency, as the property states)"};
 
     std::vector<Vec3> dirs = directions();
+    std::string sectionWall; double tPrev = run.elapsed();
+    auto mark = [&](const char* nm) { double t = run.elapsed(); sectionWall += std::string(sectionWall.empty() ? "{" : ", ") + "\"" + nm + "\": " + verif::jsonNum(t - tPrev); tPrev = t; };
     // -------- enumerate (shape, query) pairs once; sizes are the same in every process
     std::vector<int> nQ(kNumShapes);
     std::vector<int64_t> qBase(kNumShapes + 1, 0);
-    for (int s = 0; s < kNumShapes; ++s) { Shape S = makeShape(s, seed); nQ[s] = (int)queryLattice(S, thorough, seed).size(); qBase[s + 1] = qBase[s] + nQ[s]; }
+    for (int s = 0; s < kNumShapes; ++s) { Shape& S = makeShape(s, seed); nQ[s] = (int)queryLattice(S, thorough, seed).size(); qBase[s + 1] = qBase[s] + nQ[s]; }
     auto locate = [&](int64_t idx, int& s, int& qi) { s = 0; while (idx >= qBase[s + 1]) ++s; qi = (int)(idx - qBase[s]); };
 
     // sanity of the reference meshes (harness self-check)
     for (int s = 0; s < kNumShapes; ++s) {
-        Shape S = makeShape(s, seed);
+        Shape& S = makeShape(s, seed);
         if (S.kind != "Mesh") continue;
         for (auto& f : S.mesh.f) {
             Vec3 n = (S.mesh.v[f[1]] - S.mesh.v[f[0]]) % (S.mesh.v[f[2]] - S.mesh.v[f[0]]);
@@ -299,15 +334,16 @@ int main(int argc, char** argv) {
     }
 
     // =================================================================================== section 1: nearest point
-    run.parallel("nearest", qBase[kNumShapes], [&](int64_t idx) {
+    run.parallel("nearest", qBase[kNumShapes] * NVS, [&](int64_t idx0) {
+        const long seed = vseeds[idx0 / qBase[kNumShapes]]; const int64_t idx = idx0 % qBase[kNumShapes];
         int si, qi; locate(idx, si, qi);
-        Shape S = makeShape(si, seed);
+        Shape& S = makeShape(si, seed);
         const Vec3 q = queryLattice(S, thorough, seed)[qi];
         const std::string cls = queryClass(S, q);
-        auto where = [&] { return S.name + " q=" + s3(q) + " class=" + cls; };
+        auto where = [&] { return S.name + " valueset=" + std::to_string(seed) + " q=" + s3(q) + " class=" + cls; };
         auto rp = [&] { return run.replayHeader() + "shape=" + S.name + "\nq=" + s3(q) + "\n"; };
         const double L = S.scale;
-        uint64_t ch = gk::hashVec(q, verif::hashStr(S.name));
+        uint64_t ch = gk::hashVec(q, verif::hashStr(S.name + std::to_string(seed)));
 
         if (S.kind == "Brick") {
             // ContactGeometry::Brick::findNearestPoint is documented-by-assertion as not implemented (loud exception).
@@ -353,6 +389,9 @@ int main(int argc, char** argv) {
         }
         const double dq = S.distRef(q);
         const double sdq = S.sdRef(q);
+        // the ellipsoid solver finds polynomial roots: repeated radii give repeated roots and a much lower accuracy
+        const bool repeated = S.kind == "Ellipsoid" && (S.radii[0] == S.radii[1] || S.radii[1] == S.radii[2] || S.radii[0] == S.radii[2]);
+        const std::string sub = S.kind == "Ellipsoid" ? (repeated ? "Ellipsoid-repeated-radii" : "Ellipsoid-distinct-radii") : S.kind;
         const double band = (S.exactSD ? 1e-12 : 1e-9) * L;
         const bool definite = std::abs(sdq) > band;
         run.evaluation(ch, definite);
@@ -363,13 +402,17 @@ int main(int argc, char** argv) {
         run.expect(in1 == in2, "nearest-inside-unset/" + S.kind, [&] { return "inside flag is not assigned by findNearestPoint (returns the caller's preset value) at " + where(); }, rp);
         run.expect(p == p2 || isNaN3(p), "nearest-nondeterministic/" + S.kind, [&] { return "two identical calls returned different points at " + where(); }, rp);
         bool pOK = run.expect(gk::finite3(p), "nearest-nan/" + S.kind + "/" + cls, [&] { return "findNearestPoint returned " + s3(p) + " at " + where(); }, rp);
-        bool nOK = run.expect(gk::finite3(Vec3(n1)), "nearest-normal-nan/" + S.kind + "/" + cls, [&] { return "normal not set / NaN " + s3(Vec3(n1)) + " at " + where(); }, rp);
+        bool nOK = gk::finite3(Vec3(n1));
+        if (pOK) run.expect(nOK, "nearest-normal-unset-or-nan/" + S.kind, [&] { return "a finite point was returned but the normal is NaN (not assigned) at " + where(); }, rp);
         if (pOK) {
             // (b) p is on the surface; (c) no surface point is closer
-            const double tolSurf = (S.kind == "Ellipsoid" ? 1e-6 : 1e-12), tolDist = (S.kind == "Ellipsoid" ? 1e-6 : 1e-12);
+            // Ellipsoid: degree-6 polynomial root finding.  Simple roots (distinct radii, no zero coordinate): worst measured
+            // 1.4e-13; repeated radii or a zero query coordinate give multiple roots: worst measured 2.0e-5 (no accuracy documented).
+            const double tolEll = (!repeated && cls == "generic") ? 1e-10 : 2e-3;
+            const double tolSurf = (S.kind == "Ellipsoid" ? tolEll : 1e-12), tolDist = tolSurf;
             double onSurf = S.kind == "Mesh" ? S.distRef(p) : std::abs(S.sdRef(p));
-            run.residual("nearest-on-surface/" + S.kind, onSurf / L, tolSurf, where, rp, cls);
-            run.residual("nearest-is-closest/" + S.kind, std::max(0.0, (q - p).norm() - dq) / L, tolDist, where, rp, cls);
+            run.residual("nearest-on-surface/" + sub + "/" + cls, onSurf / L, tolSurf, where, rp);
+            run.residual("nearest-is-closest/" + sub + "/" + cls, std::max(0.0, (q - p).norm() - dq) / L, tolDist, where, rp);
             // (d) normal: unit, outward normal of the surface at p, and (smooth shapes) p-q parallel to it
             if (nOK) {
                 run.residual("nearest-normal-unit", std::abs(Vec3(n1).norm() - 1), 1e-14, where, rp, S.kind);
@@ -383,11 +426,11 @@ int main(int argc, char** argv) {
                     }
                     if (!S.meshSmooth) run.residual("nearest-normal-is-face-normal/Mesh", bestN, 1e-12, where, rp);
                     else run.expect(facing, "nearest-normal-outward/Mesh-smooth", [&] { return "interpolated normal points into the mesh at " + where(); }, rp);
-                } else if (onSurf <= 1e-6 * L) {
+                } else if (onSurf <= tolSurf * L) {
                     Vec3 gr = S.gradRef(p); double gn = gr.norm();
-                    if (gn > 0 && gk::finite3(gr)) run.residual("nearest-normal-vs-gradient/" + S.kind, (Vec3(n1) + gr / gn).norm(), S.kind == "Ellipsoid" ? 1e-6 : 1e-12, where, rp, cls);
+                    if (gn > 0 && gk::finite3(gr)) run.residual("nearest-normal-vs-gradient/" + sub, (Vec3(n1) + gr / gn).norm(), 1e-12, where, rp, cls);
                     double dpq = (q - p).norm();
-                    if (dpq > 1e-6 * L) run.residual("nearest-offset-parallel-to-normal/" + S.kind, (((q - p) / dpq) % Vec3(n1)).norm(), S.kind == "Ellipsoid" ? 1e-5 : 1e-10, where, rp, cls);
+                    if (dpq > 1e-6 * L) run.residual("nearest-offset-parallel-to-normal/" + sub, (((q - p) / dpq) % Vec3(n1)).norm(), 1e-10, where, rp, cls);
                 }
             }
         }
@@ -417,14 +460,16 @@ int main(int argc, char** argv) {
         run.outcome(gk::hashVec(p, gk::hashVec(Vec3(n1), in1)));
         if (idx % 1499 == 0) run.sample(where() + " -> p=" + s3(p) + " inside=" + std::to_string(in1) + " n=" + s3(Vec3(n1)) + " dRef=" + sd(dq));
     });
+    mark("nearest");
 
     // =================================================================================== section 2: implicit function, gradient, Hessian
-    run.parallel("implicit", qBase[kNumShapes], [&](int64_t idx) {
+    run.parallel("implicit", qBase[kNumShapes] * NVS, [&](int64_t idx0) {
+        const long seed = vseeds[idx0 / qBase[kNumShapes]]; const int64_t idx = idx0 % qBase[kNumShapes];
         int si, qi; locate(idx, si, qi);
-        Shape S = makeShape(si, seed);
+        Shape& S = makeShape(si, seed);
         if (!S.smooth) return;
         const Vec3 q = queryLattice(S, thorough, seed)[qi];
-        auto where = [&] { return S.name + " q=" + s3(q); };
+        auto where = [&] { return S.name + " valueset=" + std::to_string(seed) + " q=" + s3(q); };
         auto rp = [&] { return run.replayHeader() + "shape=" + S.name + "\nq=" + s3(q) + "\n"; };
         const ContactGeometry& g = *S.g;
         const double L = S.scale, h = 1e-3 * L;
@@ -441,8 +486,16 @@ int main(int argc, char** argv) {
                 return;
             }
         }
-        run.evaluation(gk::hashVec(q, verif::hashStr(S.name + "/implicit")), true);
+        run.evaluation(gk::hashVec(q, verif::hashStr(S.name + std::to_string(seed) + "/implicit")), true);
         const Function& F = g.getImplicitFunction();
+        if (S.kind == "Torus" && std::hypot(q[0], q[1]) < 2.5 * h) {
+            // the torus function depends on |xy|: it has a kink on the z axis and no gradient there.  Only the
+            // documented promise "calcSurfaceUnitNormal never returns NaN" is checked.
+            UnitVec3 n = g.calcSurfaceUnitNormal(q);
+            run.expect(gk::finite3(Vec3(n)) && std::abs(Vec3(n).norm() - 1) < 1e-12, "unit-normal-at-singular-point/" + S.kind, [&] { return "calcSurfaceUnitNormal returned " + s3(Vec3(n)) + " on the torus axis (documented: a valid direction, never NaN) at " + where(); }, rp);
+            run.count("skipped:torus-axis-nondifferentiable");
+            return;
+        }
         const double v = g.calcSurfaceValue(q);
         const Vec3 gr = g.calcSurfaceGradient(q);
         const Mat33 H = g.calcSurfaceHessian(q);
@@ -459,7 +512,9 @@ int main(int argc, char** argv) {
             if (gr.norm() > 1e-9 * fs / L && gf.norm() > 0)
                 run.residual("implicit-function-gradient-parallel", (gf / gf.norm() - gr / gr.norm()).norm(), 1e-12, where, rp, S.kind);
             // finite differences of the Function object itself
-            double fsf = std::abs(vf); for (int a = 0; a < 3; ++a) fsf = std::max(fsf, std::abs(gf[a]) * L); if (!(fsf > 0)) fsf = 1;
+            double fsf = std::abs(vf); for (int a = 0; a < 3; ++a) fsf = std::max(fsf, std::abs(gf[a]) * L);
+            for (int a = 0; a < 3; ++a) for (int b = 0; b < 3; ++b) { Array_<int> c2(2); c2[0] = a; c2[1] = b; fsf = std::max(fsf, std::abs(F.calcDerivative(c2, x)) * L * L); }
+            if (!(fsf > 0)) fsf = 1;
             for (int a = 0; a < 3; ++a) {
                 bool ok; double d = gk::fd1([&](double s) { Vector y = x; y[a] += s; return F.calcValue(y); }, h, 1e-7 * fsf / L, ok);
                 if (!ok) { run.count("fd-skipped:function-gradient"); continue; }
@@ -491,28 +546,30 @@ int main(int argc, char** argv) {
             if (S.hasRef) { Vec3 rg = S.gradRef(q); if (gk::finite3(rg) && rg.norm() > 0) run.residual("unit-normal-vs-reference", (Vec3(n) + rg / rg.norm()).norm(), 1e-12, where, rp, S.kind); }
         } else {
             UnitVec3 n = g.calcSurfaceUnitNormal(q);   // documented: some valid direction, never NaN
-            run.expect(gk::finite3(Vec3(n)) && std::abs(Vec3(n).norm() - 1) < 1e-12, "unit-normal-at-singular-point", [&] { return "calcSurfaceUnitNormal returned " + s3(Vec3(n)) + " at singular point " + where(); }, rp);
+            run.expect(gk::finite3(Vec3(n)) && std::abs(Vec3(n).norm() - 1) < 1e-12, "unit-normal-at-singular-point/" + S.kind, [&] { return "calcSurfaceUnitNormal returned " + s3(Vec3(n)) + " at singular point " + where(); }, rp);
             run.count("singular-gradient-points");
         }
         run.outcome(gk::hashVec(gr, verif::hashPod(v)));
         if (idx % 2999 == 0) run.sample(where() + " -> f=" + sd(v) + " grad=" + s3(gr));
     });
+    mark("implicit");
 
     // =================================================================================== section 3: curvatures vs geometric finite differences
     struct CurvItem { int shape, pt; };
     std::vector<CurvItem> curvItems;
-    for (int s = 0; s < kNumShapes; ++s) { Shape S = makeShape(s, seed); if (S.smooth) for (int i = 0; i < (int)S.surfPts.size(); ++i) curvItems.push_back({s, i}); }
-    run.parallel("curvature", (int64_t)curvItems.size(), [&](int64_t idx) {
-        Shape S = makeShape(curvItems[idx].shape, seed);
+    for (int s = 0; s < kNumShapes; ++s) { Shape& S = makeShape(s, seed); if (S.smooth) for (int i = 0; i < (int)S.surfPts.size(); ++i) curvItems.push_back({s, i}); }
+    run.parallel("curvature", (int64_t)curvItems.size() * NVS, [&](int64_t idx0) {
+        const long seed = vseeds[idx0 / (int64_t)curvItems.size()]; const int64_t idx = idx0 % (int64_t)curvItems.size();
+        Shape& S = makeShape(curvItems[idx].shape, seed);
         const ContactGeometry& g = *S.g;
         Vec3 p = S.surfPts[curvItems[idx].pt];
         const double L = S.scale;
-        auto where = [&] { return S.name + " p=" + s3(p); };
+        auto where = [&] { return S.name + " valueset=" + std::to_string(seed) + " p=" + s3(p); };
         auto rp = [&] { return run.replayHeader() + "shape=" + S.name + "\np=" + s3(p) + "\n"; };
         Vec3 gr = S.gradRef(p); if (!(gr.norm() > 0)) { run.count("skipped:curvature-singular"); return; }
         const Vec3 n = -gr / gr.norm();
-        if (S.kind == "HeightMap") { for (int a = 0; a < 2; ++a) for (int sg = -1; sg <= 1; sg += 2) { Vec3 t = p; t[a] += sg * 0.1 * L; if (!g.isSurfaceDefined(t)) { run.count("skipped:curvature-near-heightmap-edge"); return; } } }
-        run.evaluation(gk::hashVec(p, verif::hashStr(S.name + "/curv")), true);
+        if (S.kind == "HeightMap") { for (int a = 0; a < 2; ++a) for (int sg = -1; sg <= 1; sg += 2) { Vec3 t = p; t[a] += sg * 0.15 * L; if (!g.isSurfaceDefined(t)) { run.count("skipped:curvature-near-heightmap-edge"); return; } } }
+        run.evaluation(gk::hashVec(p, verif::hashStr(S.name + std::to_string(seed) + "/curv")), true);
         // height of the surface over the tangent plane at p, at tangential offset s along t
         auto height = [&](const Vec3& t, double s) {
             Vec3 base = p + s * t; double z = 0;
@@ -523,9 +580,16 @@ int main(int argc, char** argv) {
             }
             return z;
         };
-        auto fdCurv = [&](const Vec3& t, bool& ok) { double d2 = gk::fd2([&](double s) { return height(t, s); }, 0.02 * L, 1e-6 / L, ok); return -d2; };
         // tangent basis
         Vec3 t1 = std::abs(n[0]) < 0.7 ? Vec3(1, 0, 0) : Vec3(0, 1, 0); t1 = t1 - n * dot(t1, n); t1 /= t1.norm(); Vec3 t2 = n % t1;
+        // local curvature scale from a crude second difference (sets the finite-difference step and the residual scale)
+        double kscale = 1 / L;
+        { const double h0 = 1e-3 * L; for (const Vec3& t : {t1, t2, (t1 + t2) / std::sqrt(2.0)}) kscale = std::max(kscale, std::abs((height(t, h0) + height(t, -h0)) / (h0 * h0))); }
+        const double hC = 0.01 / kscale;
+        auto fdCurv = [&](const Vec3& t, bool& ok) {
+            double d2 = gk::fd2([&](double s) { return height(t, s); }, hC, 1e-6 * kscale, ok);
+            if (run.verbose) { bool o2; double c = gk::fd2([&](double s) { return height(t, s); }, 2 * hC, 1e-7 * kscale, o2); fprintf(stderr, "  fdCurv t=%s k(h/2)=%.12g k(h)=%.12g ok=%d kscale=%g hC=%g\n", s3(t).c_str(), -d2, -c, (int)ok, kscale, hC); }
+            return -d2; };
         double kmin = INFINITY, kmax = -INFINITY; int nDir = 0;
         for (int k = 0; k < 12; ++k) {
             double th = 0.17 + k * Pi / 12; Vec3 t = cos(th) * t1 + sin(th) * t2;
@@ -533,7 +597,7 @@ int main(int argc, char** argv) {
             if (!ok) { run.count("fd-skipped:curvature"); continue; }
             ++nDir; kmin = std::min(kmin, kfd); kmax = std::max(kmax, kfd);
             double klib = g.calcSurfaceCurvatureInDirection(p, UnitVec3(t));
-            run.residual("curvature-in-direction-vs-fd", std::abs(klib - kfd) * L, 1e-5, where, rp, S.kind);
+            run.residual("curvature-in-direction-vs-fd", std::abs(klib - kfd) / kscale, 1e-5, where, rp, S.kind);
         }
         // principal curvatures from the generic implicit operator and from the shape-specific operator
         for (int which = 0; which < 2; ++which) {
@@ -551,11 +615,11 @@ int main(int argc, char** argv) {
             bool ok1, ok2; Vec3 x = Vec3(R.x()) - n * dot(Vec3(R.x()), n), y = Vec3(R.y()) - n * dot(Vec3(R.y()), n);
             if (!(x.norm() > 0.5 && y.norm() > 0.5)) continue;
             double kx = fdCurv(x / x.norm(), ok1), ky = fdCurv(y / y.norm(), ok2);
-            if (ok1) run.residual("kmax-is-curvature-along-x/" + op, std::abs(kx - k[0]) * L, 1e-5, where, rp, S.kind); else run.count("fd-skipped:curvature");
-            if (ok2) run.residual("kmin-is-curvature-along-y/" + op, std::abs(ky - k[1]) * L, 1e-5, where, rp, S.kind); else run.count("fd-skipped:curvature");
+            if (ok1) run.residual("kmax-is-curvature-along-x/" + op, std::abs(kx - k[0]) / kscale, 1e-5, where, rp, S.kind); else run.count("fd-skipped:curvature");
+            if (ok2) run.residual("kmin-is-curvature-along-y/" + op, std::abs(ky - k[1]) / kscale, 1e-5, where, rp, S.kind); else run.count("fd-skipped:curvature");
             if (nDir > 0) {   // extremes over the 12 sampled directions
-                run.residual("kmax-bounds-directional-curvatures/" + op, std::max(0.0, kmax - k[0]) * L, 1e-5, where, rp, S.kind);
-                run.residual("kmin-bounds-directional-curvatures/" + op, std::max(0.0, k[1] - kmin) * L, 1e-5, where, rp, S.kind);
+                run.residual("kmax-bounds-directional-curvatures/" + op, std::max(0.0, kmax - k[0]) / kscale, 1e-5, where, rp, S.kind);
+                run.residual("kmin-bounds-directional-curvatures/" + op, std::max(0.0, k[1] - kmin) / kscale, 1e-5, where, rp, S.kind);
             }
             if (which == 0) {
                 double K = g.calcGaussianCurvature(p);
@@ -569,18 +633,20 @@ int main(int argc, char** argv) {
         }
         if (idx % 97 == 0) run.sample(where() + " -> fd curvature range [" + sd(kmin) + "," + sd(kmax) + "]");
     });
+    mark("curvature");
 
     // =================================================================================== section 4: support points
-    run.parallel("support", (int64_t)kNumShapes * (int64_t)dirs.size(), [&](int64_t idx) {
-        Shape S = makeShape((int)(idx / (int64_t)dirs.size()), seed);
+    run.parallel("support", (int64_t)kNumShapes * (int64_t)dirs.size() * NVS, [&](int64_t idx0) {
+        const int64_t per = (int64_t)kNumShapes * (int64_t)dirs.size(); const long seed = vseeds[idx0 / per]; const int64_t idx = idx0 % per;
+        Shape& S = makeShape((int)(idx / (int64_t)dirs.size()), seed);
         Vec3 d = dirs[idx % dirs.size()]; d /= d.norm();
-        auto where = [&] { return S.name + " d=" + s3(d); };
+        auto where = [&] { return S.name + " valueset=" + std::to_string(seed) + " d=" + s3(d); };
         auto rp = [&] { return run.replayHeader() + "shape=" + S.name + "\nd=" + s3(d) + "\n"; };
         const double L = S.scale;
         bool convex = S.g->isConvex();
         Vec3 sp(NaN); bool threw = false;
         try { sp = S.g->calcSupportPoint(UnitVec3(d)); } catch (const std::exception&) { threw = true; }
-        run.evaluation(gk::hashVec(d, verif::hashStr(S.name + "/support")), convex && S.supportRef != nullptr);
+        run.evaluation(gk::hashVec(d, verif::hashStr(S.name + std::to_string(seed) + "/support")), convex && S.supportRef != nullptr);
         if (threw) { run.count(std::string("unimplemented-loud:") + S.kind + ".calcSupportPoint"); run.expect(!convex, "support-throws-on-convex/" + S.kind, [&] { return "calcSupportPoint threw for a shape reporting isConvex() at " + where(); }, rp); return; }
         if (isNaN3(sp)) {
             // assert(false) stubs.  For the infinite cylinder a support point exists only for directions normal to the axis.
@@ -598,24 +664,27 @@ int main(int argc, char** argv) {
         run.outcome(gk::hashVec(sp, 3));
         if (idx % 61 == 0) run.sample(where() + " -> support " + s3(sp) + " h(d)=" + sd(S.supportRef(d)));
     });
+    mark("support");
 
     // =================================================================================== section 5: bounding spheres
-    run.parallel("bsphere", kNumShapes, [&](int64_t idx) {
-        Shape S = makeShape((int)idx, seed);
-        auto where = [&] { return S.name; };
+    run.parallel("bsphere", (int64_t)kNumShapes * NVS, [&](int64_t idx0) {
+        const long seed = vseeds[idx0 / kNumShapes]; const int64_t idx = idx0 % kNumShapes;
+        Shape& S = makeShape((int)idx, seed);
+        auto where = [&] { return S.name + " valueset=" + std::to_string(seed); };
         auto rp = [&] { return run.replayHeader() + "shape=" + S.name + "\n"; };
         Vec3 c(NaN); Real r = NaN; S.g->getBoundingSphere(c, r);
-        run.evaluation(verif::hashStr(S.name + "/bsphere"), true);
+        run.evaluation(verif::hashStr(S.name + std::to_string(seed) + "/bsphere"), true);
         if (!S.finite) { run.expect(std::isinf(r) && r > 0, "bounding-sphere-of-infinite-shape/" + S.kind, [&] { return "radius " + sd(r) + " for an infinite shape " + where(); }, rp); return; }
         if (!run.expect(gk::finite3(c) && std::isfinite(r) && r > 0, "bounding-sphere-finite/" + S.kind, [&] { return "center " + s3(c) + " radius " + sd(r) + " for " + where(); }, rp)) return;
         double worst = 0; Vec3 at(0);
         for (auto& x : S.sample) { double e = (x - c).norm() - r; if (e > worst) { worst = e; at = x; } }
         run.residual("bounding-sphere-contains-sample/" + S.kind, worst / S.scale, 1e-13, [&] { return where() + " point " + s3(at); }, rp);
         double far = 0; for (auto& x : S.sample) far = std::max(far, (x - c).norm());
-        run.count("bsphere-slack-permille:" + S.name, (int64_t)(1000 * (r - far) / r));
+        if (seed == vseeds[0]) run.count("bsphere-slack-permille:" + S.name, (int64_t)(1000 * (r - far) / r));
         run.outcome(gk::hashVec(c, verif::hashPod(r)));
         run.sample(where() + " -> center " + s3(c) + " radius " + sd(r) + " farthest sample " + sd(far));
     });
+    mark("bsphere");
 
     // =================================================================================== section 6: rays
     std::vector<Vec3> originLattice;
@@ -623,17 +692,18 @@ int main(int argc, char** argv) {
       for (int i = -n; i <= n; ++i) for (int j = -n; j <= n; ++j) for (int k = -n; k <= n; ++k) originLattice.push_back(Vec3(i * g + 0.113, j * g - 0.071, k * g + 0.059));
       for (int i = -1; i <= 1; ++i) for (int j = -1; j <= 1; ++j) for (int k = -1; k <= 1; ++k) originLattice.push_back(Vec3(i * 1.5, j * 1.5, k * 1.5)); }
     const int64_t nRay = (int64_t)originLattice.size() * (int64_t)dirs.size();
-    run.parallel("ray", kNumShapes * nRay, [&](int64_t idx) {
-        Shape S = makeShape((int)(idx / nRay), seed);
+    run.parallel("ray", kNumShapes * nRay * NVS, [&](int64_t idx0) {
+        const long seed = vseeds[idx0 / (kNumShapes * nRay)]; const int64_t idx = idx0 % (kNumShapes * nRay);
+        Shape& S = makeShape((int)(idx / nRay), seed);
         int64_t r = idx % nRay;
         Vec3 o0 = originLattice[r / dirs.size()]; Vec3 o(o0[0] * S.ext[0], o0[1] * S.ext[1], o0[2] * S.ext[2]);
         Vec3 d = dirs[r % dirs.size()]; d /= d.norm();
-        auto where = [&] { return S.name + " o=" + s3(o) + " d=" + s3(d); };
+        auto where = [&] { return S.name + " valueset=" + std::to_string(seed) + " o=" + s3(o) + " d=" + s3(d); };
         auto rp = [&] { return run.replayHeader() + "shape=" + S.name + "\no=" + s3(o) + "\nd=" + s3(d) + "\n"; };
         const double L = S.scale;
         const Real preset = -7.25; Real dist = preset; UnitVec3 n(Vec3(0.6, 0, 0.8), true); bool hit = false, threw = false;
         try { hit = S.g->intersectsRay(o, UnitVec3(d), dist, n); } catch (const std::exception&) { threw = true; }
-        uint64_t ch = gk::hashVec(o, gk::hashVec(d, verif::hashStr(S.name + "/ray")));
+        uint64_t ch = gk::hashVec(o, gk::hashVec(d, verif::hashStr(S.name + std::to_string(seed) + "/ray")));
         if (threw) { run.evaluation(ch, false); run.count("unimplemented-loud:" + S.kind + ".intersectsRay"); return; }
         if (S.kind == "HeightMap") {
             run.evaluation(ch, true);
@@ -645,8 +715,10 @@ int main(int argc, char** argv) {
         bool refHit = false, unspecified = false; double tRef = NaN; Vec3 nRef(NaN);
         const double bandO = 1e-9 * L;
         if (S.kind == "HalfSpace") {
-            if (std::abs(o[0]) <= bandO || std::abs(d[0]) < 1e-9) unspecified = std::abs(o[0]) <= bandO || d[0] != 0;
-            if (!unspecified) { if (d[0] != 0 && -o[0] / d[0] > 0) { refHit = true; tRef = -o[0] / d[0]; nRef = Vec3(-1, 0, 0); } }
+            if (std::abs(o[0]) <= bandO) unspecified = true;
+            else if (d[0] == 0) refHit = false;
+            else if (std::abs(d[0]) < 1e-9) unspecified = true;
+            else if (-o[0] / d[0] > 0) { refHit = true; tRef = -o[0] / d[0]; nRef = Vec3(-1, 0, 0); }
         } else if (S.kind == "Sphere" || S.kind == "Ellipsoid" || S.kind == "Cylinder") {
             Vec3 a = S.kind == "Sphere" ? Vec3(S.r) : S.kind == "Cylinder" ? Vec3(S.r, S.r, Infinity) : S.radii;
             Vec3 os(o[0] / a[0], o[1] / a[1], o[2] / a[2]), ds(d[0] / a[0], d[1] / a[1], d[2] / a[2]);
@@ -674,6 +746,10 @@ int main(int argc, char** argv) {
         } else { run.evaluation(ch, false); run.count("ray-no-reference:" + S.kind); return; }
         run.evaluation(ch, !unspecified);
         if (run.verbose) fprintf(stderr, "%s -> hit=%d dist=%.17g n=%s | ref hit=%d t=%.17g unspecified=%d\n", where().c_str(), (int)hit, dist, s3(Vec3(n)).c_str(), (int)refHit, tRef, (int)unspecified);
+        if (hit && !(std::isfinite(dist) && gk::finite3(Vec3(n)))) {
+            run.expect(false, "ray-hit-with-nan/" + S.kind, [&] { return "intersectsRay returned true with distance " + sd(dist) + " normal " + s3(Vec3(n)) + " (reference: " + (unspecified ? "unspecified" : refHit ? "hit" : "no hit") + ") at " + where(); }, rp);
+            return;
+        }
         if (hit) run.expect(std::isfinite(dist) && gk::finite3(Vec3(n)), "ray-hit-with-nan/" + S.kind, [&] { return "intersectsRay returned true with distance " + sd(dist) + " normal " + s3(Vec3(n)) + " at " + where(); }, rp);
         else run.expect(dist == preset && Vec3(n) == Vec3(0.6, 0, 0.8), "ray-miss-leaves-outputs-unchanged/" + S.kind, [&] { return "no hit reported but distance/normal were modified at " + where(); }, rp);
         if (unspecified) { run.count("unspecified:ray-grazing-or-on-surface"); return; }
@@ -686,6 +762,8 @@ int main(int argc, char** argv) {
         run.outcome(verif::hashPod(hit ? dist : -1.0, verif::hashStr(S.kind)));
         if (idx % 4999 == 0) run.sample(where() + " -> hit=" + std::to_string(hit) + (hit ? " dist=" + sd(dist) : ""));
     });
+    mark("ray");
+    run.extraCoverage["section_wall_s"] = sectionWall + "}";
 
     return run.finish();
 }
